@@ -125,8 +125,8 @@ func ChunksOf(s *model.Set, kindOf func(key uint16, card int, nruns int) Kind) [
 }
 
 const (
-	CookieNoRun = 12346
-	CookieRun   = 12347
+	CookieNoRun       = 12346
+	CookieRun         = 12347
 	NoOffsetThreshold = 4
 )
 
